@@ -754,15 +754,15 @@ QUICK_JOBS = [  # (name, target universes, source safety, three-stage histories)
     ("three-stage", ["U_Q3"], True, True),
 ]
 THOROUGH_JOBS = [
-    ("pr", ["U_FocusPr"], True, True),
-    ("del", ["U_FocusDel"], True, True),
-    ("new", ["U_FocusNew"], True, True),
-    ("safe", ["U_FocusSafe"], True, True),
-    ("kinds", ["U_Kinds"], True, False),
-    ("siblings", ["U_Siblings"], True, True),
-    ("all-decorations", ["U_AllXZ"], True, False),
-    ("pairs", ["U_Pairs3"], True, False),
-    ("unsafe-source", ["U_FocusSafe", "U_MutKinds", "U_QKinds"], False, False),
+    ("pr", ["U_FocusPr"], True, False),
+    ("del", ["U_FocusDel"], True, False),
+    ("new", ["U_FocusNew"], True, False),
+    ("safe", ["U_FocusSafe"], True, False),
+    ("kinds", ["U_TKinds"], True, False),
+    ("siblings+three-stage", ["U_Siblings", "U_QFocusDel", "U_QFocusNew"], True, True),
+    ("all-decorations", ["U_AllX", "U_AllZd", "U_AllZl", "U_AllZe"], True, False),
+    ("pairs", ["U_Pairs2"], True, False),
+    ("unsafe-source", ["U_QFocusSafe", "U_MutKinds", "U_QKinds", "U_MutSafe"], False, False),
 ]
 MUTATIONS = [  # (deviation switch or design mutation, universe, source safety)
     ("ElideDelDefault", "U_MutDel", True), ("ElideNewDefault", "U_MutNew", True),
